@@ -79,6 +79,10 @@ type vMSvcRun struct {
 	Subs     []*vMSvcSubmission `json:"submissions"`
 	Anns     []vMSvcAnn         `json:"announcements"`
 	Notes    []string           `json:"notes,omitempty"`
+	// Watchdog: the service runs with a manifest timeout (microseconds); a
+	// lease without a manifest in time makes its watchdog close the bid
+	Watchdog      int `json:"watchdog_timeout_us,omitempty"`
+	WatchdogFired int `json:"watchdog_close_bids,omitempty"`
 }
 
 type vMSvcEnd struct{}
@@ -95,7 +99,7 @@ type vMSvcDep struct {
 
 func vManifestServiceStage(res *vs.Result) {
 	verifhook.Set(nil)
-	for _, f := range []string{"service_runs", "service_submissions", "service_accepted", "service_announcements", "service_rejected_not_running", "service_deployment_closed_events", "service_managers_recreated", "service_probe_submissions"} {
+	for _, f := range []string{"service_runs", "service_submissions", "service_accepted", "service_announcements", "service_rejected_not_running", "service_deployment_closed_events", "service_managers_recreated", "service_probe_submissions", "service_runs_with_manifest_timeout", "service_watchdog_closed_a_bid", "service_submissions_in_runs_where_a_watchdog_fired"} {
 		if vs.ReplayFile() == "" {
 			res.Floor(f, 1)
 		}
@@ -134,6 +138,19 @@ func vManifestServiceStage(res *vs.Result) {
 			}
 		}
 		res.Count("service_announcements", len(run.Anns))
+		if run.Watchdog > 0 {
+			res.Count("service_runs_with_manifest_timeout", 1)
+			res.Count("service_watchdog_closed_a_bid", run.WatchdogFired)
+			late := 0
+			if run.WatchdogFired > 0 {
+				for _, sb := range run.Subs {
+					if !sb.Probe {
+						late++
+					}
+				}
+			}
+			res.Count("service_submissions_in_runs_where_a_watchdog_fired", late)
+		}
 		closed := 0
 		for _, e := range run.Events {
 			if strings.HasPrefix(e, "X") {
@@ -272,7 +289,7 @@ func vRunManifestService(kits []*vManifestKit, seed int64, idx int) (*vMSvcRun, 
 
 	// responder for the chain fetches
 	stop := make(chan struct{})
-	var quick int32
+	var quick, wdFired int32
 	var rwg sync.WaitGroup
 	rwg.Add(1)
 	go func() {
@@ -285,6 +302,20 @@ func vRunManifestService(kits []*vManifestKit, seed int64, idx int) (*vMSvcRun, 
 			default:
 			}
 			for _, c := range g.AnyPending() {
+				if strings.HasPrefix(c.Kind, venv.KBroadcast) {
+					// the watchdog's close-bid: in flight for a while, then
+					// accepted or refused by the chain
+					if atomic.LoadInt32(&quick) == 0 && rr.Chance(3, 4) {
+						continue
+					}
+					atomic.AddInt32(&wdFired, 1)
+					if rr.Chance(1, 4) {
+						g.Release(c, nil, errScriptedFetch)
+					} else {
+						g.Release(c, nil, nil)
+					}
+					continue
+				}
 				if c.Kind != venv.KQueryDeployment {
 					continue
 				}
@@ -316,7 +347,13 @@ func vRunManifestService(kits []*vManifestKit, seed int64, idx int) (*vMSvcRun, 
 	}()
 
 	ctx, cancel := context.WithCancel(context.Background())
-	svcI, err := NewService(ctx, sess, bus, vScriptedHostnames{}, ServiceConfig{})
+	cfg := ServiceConfig{}
+	if r.Chance(1, 3) {
+		run.Watchdog = r.Range(10, 400)
+		cfg.ManifestTimeout = time.Duration(run.Watchdog) * time.Microsecond
+		run.Events = append(run.Events, "W")
+	}
+	svcI, err := NewService(ctx, sess, bus, vScriptedHostnames{}, cfg)
 	if err != nil {
 		note("NewService failed: %v", err)
 		cancel()
@@ -460,6 +497,7 @@ func vRunManifestService(kits []*vManifestKit, seed int64, idx int) (*vMSvcRun, 
 
 	mu.Lock()
 	defer mu.Unlock()
+	run.WatchdogFired = int(atomic.LoadInt32(&wdFired))
 	trig := func(di int) string {
 		var parts []string
 		seen := map[string]bool{}
